@@ -44,8 +44,10 @@ Definition clean_segs (segs : list bytes) : list bytes :=
 Definition clean_rooted (p : bytes) : bytes :=
   SLASH :: join_with SLASH (clean_segs (split_on SLASH p)).
 
-(* utils.CanonicalPath *)
-Definition canonical_path (p0 : bytes) : bytes :=
+(* utils.canonicalPathOnce: one pass of trim, lower, root, clean, trailing slash.
+   Not idempotent by itself: TrimSpace runs before path.Clean, so a blank left
+   at the end by resolving ".." ("/a /b/.." -> "/a ") goes only in the next pass. *)
+Definition canonical_once (p0 : bytes) : bytes :=
   let p := to_lower (trim_space p0) in
   match p with
   | [] => [SLASH]
@@ -54,3 +56,16 @@ Definition canonical_path (p0 : bytes) : bytes :=
       let np := clean_rooted p in
       if ends_with SLASH p && negb (bytes_eqb np [SLASH]) then np ++ [SLASH] else np
   end.
+
+(* utils.CanonicalPath: `for { np := canonicalPathOnce(p); if np == p { return np }; p = np }`.
+   The fuel is never exhausted (Proofs/CanonProofs.v, canonical_path_fixed): after
+   the first pass every pass that changes the path makes it shorter. *)
+Fixpoint canon_iter (fuel : nat) (p : bytes) : bytes :=
+  match fuel with
+  | O => p
+  | S f => let np := canonical_once p in
+           if bytes_eqb np p then np else canon_iter f np
+  end.
+Definition canonical_path (p : bytes) : bytes := canon_iter (S (S (length p))) p.
+(* proofs elsewhere treat CanonicalPath as a black box: simpl/cbn must not run the loop *)
+Global Arguments canonical_path : simpl never.
